@@ -207,4 +207,36 @@ theorem C08_same_meaning (sig c : Engine) (a : Nat) (ha : a ≤ volvoTimeoutMs) 
 example : volvoRun 0x27 {} [.status { rpm := 1500, state := .request }, .cmd { rpm := 0, state := .request }, .tick] =
     [[], [volvoFrame 0x27 0x07 800], [volvoFrame 0x27 0x07 800]] := by decide
 
+/-! ### the translator tie -/
+
+/-- the state code `volvoEmit` puts into the frame for a governed state -/
+def emitCode : EngineState → Nat
+  | .noRequest => Consts.volvoStateNominal
+  | .starting => Consts.volvoStateStarting
+  | .stopping => Consts.volvoStateShutdown
+  | .request => Consts.volvoStateNominal
+
+theorem volvoEmit_code (sa : Nat) (g : Engine) : volvoEmit sa g = volvoFrame sa (emitCode g.state) g.rpm := by
+  unfold volvoEmit emitCode; cases g.state <;> rfl
+
+/-- the payload `volvoFrame` builds, as a template (256 = the state code, 257 = the speed byte) -/
+theorem volvoFrame_template (sa code rpm : Nat) :
+    (volvoFrame sa code rpm).data = Consts.volvoPayloadTemplate.map fun b => if b = 256 then code else if b = 257 then min (rpm / 10) 255 else b := by
+  simp [volvoFrame, J1939.mkFrame, Consts.volvoPayloadTemplate]
+
+/-- TRANSLATION THEOREM for the command side of the Volvo driver.  What the translator reads off volvo_ems.rs on this run
+says what `volvoStep` says: `trigger` and `tick` send, for each governed state, one speed-control frame with the state code
+`volvoEmit` uses and the governed speed (one table for both); the payload template of `speed_control` is the one of
+`volvoFrame`; `trigger` stores the NORMALISED command before governing it with no age and writes nothing else; `tick`
+governs the stored command with its age (the reported engine when nothing is stored) and writes nothing. -/
+theorem C08_driver_shape_translated :
+    (∀ st : EngineState, Consts.volvoTriggerArms.contains [st.code, emitCode st] = true ∧
+                         Consts.volvoTickArms.contains [st.code, emitCode st] = true) ∧
+    Consts.volvoTriggerArms.length = 4 ∧ Consts.volvoTickArms = Consts.volvoTriggerArms ∧
+    Consts.volvoTriggerStoresNormalisedCommand = true ∧ Consts.volvoTickGovernsStoredCommandWithItsAge = true ∧
+    Consts.volvoTickContextWrites = 0 := by
+  refine ⟨?_, by decide, by decide, by decide, by decide, by decide⟩
+  intro st
+  cases st <;> exact ⟨by decide, by decide⟩
+
 end Glonax.Thm.C08
